@@ -143,6 +143,175 @@ def c_depacketizer(dw, fields, length, swap=True):
     h.functions = ["litex.soc.interconnect.packet.Depacketizer.__init__", "litex.soc.interconnect.packet.Header.decode"]
     return h
 
+def mkfields(length):
+    """a header definition filling `length` bytes: 8-bit, 16-bit, sub-byte and wide fields"""
+    f = {"a": HeaderField(0, 0, 8)}
+    if length >= 3: f["b"] = HeaderField(1, 0, 16)
+    if length >= 4: f["c"] = HeaderField(3, 4, 4); f["d"] = HeaderField(3, 0, 3)
+    if length >= 5: f["e"] = HeaderField(4, 0, min(64, (length - 4) * 8))
+    if length >= 13: f["g"] = HeaderField(12, 0, (length - 12) * 8)
+    return f
+
+def c_packetizer_unaligned(dw, fields, length, swap=True):
+    """header length not a multiple of the data width: the last `lo` header bytes share a beat with the first payload bytes and every
+    later beat is the previous payload beat's upper `lo` bytes followed by the next beat's lower bytes; one flush beat ends the packet.
+    Byte-stream view: output bytes == header bytes ++ payload bytes (++ B-lo don't-care bytes in the flush beat)."""
+    hdr = Header(fields, length, swap_field_bytes=swap)
+    sink_desc = stream.EndpointDescription([("data", dw)], hdr.get_layout()); src_desc = stream.EndpointDescription([("data", dw)])
+    d = mk(Packetizer, sink_desc, src_desc, hdr); sink, source = d.sink, d.source
+    B = dw // 8; hw = length // B; lo = length % B; assert lo != 0 and hw >= 1
+    h = HwCheck(f"Packetizer(dw={dw},hdr={length}B,unaligned)", d, ep_inputs(sink, source))
+    producer_holds(h, sink)
+    PW = max(2, (hw + 2).bit_length())
+    ph = h.ghost("phase", PW)                 # output beats sent so far, saturating at hw+1 (0..hw-1: full header words, hw: merge beat, hw+1: body)
+    ghdr = h.ghost("hdr", length * 8); resd = h.ghost("res", lo * 8); pend = h.ghost("pend", 1)
+    in_fire, out_fire = fire(h, sink), fire(h, source)
+    bits = spec_header_bits(fields, length, swap, lambda n: h.v(getattr(sink, n)))
+    spec_now = z3.Concat(*[bits.get(p, K(0, 1)) for p in reversed(range(length * 8))])
+    in_hdr = ult(ph, hw); merge = ph == K(hw, PW); body = ph == K(hw + 1, PW)
+    flush_fire = z3.And(out_fire, b(pend))
+    h.ghost_next(ph, z3.If(flush_fire, K(0, PW), z3.If(z3.And(out_fire, z3.Not(body)), ph + 1, ph)))
+    h.ghost_next(ghdr, z3.If(z3.And(out_fire, ph == K(0, PW)), spec_now, ghdr))
+    h.ghost_next(resd, z3.If(in_fire, z3.Extract(dw - 1, dw - lo * 8, h.v(sink.data)), resd))
+    h.ghost_next(pend, z3.If(flush_fire, K(0, 1), z3.If(in_fire, h.v(sink.last), pend)))
+    hdr_eff = z3.If(ph == K(0, PW), spec_now, ghdr)
+    def word(p, hv): return z3.Extract(dw * (p + 1) - 1, dw * p, hv)
+    spec_word = word(0, spec_now)
+    for p in range(1, hw): spec_word = z3.If(ph == K(p, PW), word(p, ghdr), spec_word)
+    tail = z3.Extract(length * 8 - 1, hw * dw, ghdr)                     # the lo header bytes that do not fill a word
+    lowpay = z3.Extract(dw - lo * 8 - 1, 0, h.v(sink.data))              # the payload bytes that fit next to them
+    sdat = h.v(source.data); s_lo = z3.Extract(lo * 8 - 1, 0, sdat); s_hi = z3.Extract(dw - 1, lo * 8, sdat)
+    sv, sl = b(h.v(source.valid)), b(h.v(source.last))
+    h.ensure("ens.hdr", z3.Implies(in_hdr, z3.And(sv == z3.Or(b(h.v(sink.valid)), ph != K(0, PW)), z3.Implies(sv, z3.And(sdat == spec_word, z3.Not(sl))), z3.Not(in_fire))))
+    h.ensure("ens.merge", z3.Implies(z3.And(merge, sv), z3.And(b(h.v(sink.valid)), s_lo == tail, s_hi == lowpay, z3.Not(sl), in_fire == out_fire)))
+    h.ensure("ens.body", z3.Implies(z3.And(body, z3.Not(b(pend)), sv), z3.And(b(h.v(sink.valid)), s_lo == resd, s_hi == lowpay, z3.Not(sl), in_fire == out_fire)))
+    h.ensure("ens.flush", z3.Implies(b(pend), z3.And(sv, s_lo == resd, sl, z3.Not(in_fire))))
+    h.ensure("ens.no-consume", z3.Implies(z3.Not(sv), z3.Not(in_fire)))
+    # C04: stalled beat held - over valid/first/last and the bytes that carry packet content
+    content = lambda which: cat((h.v if which == "v" else h.n)(source.first), (h.v if which == "v" else h.n)(source.last), z3.Extract(lo * 8 - 1, 0, (h.v if which == "v" else h.n)(source.data)))
+    stalled = z3.And(sv, z3.Not(b(h.v(source.ready))))
+    h.ensure_seq("ens.hold", lambda at: z3.Implies(at(stalled, 0), z3.And(at(sv, 1), at(sl, 1) == at(sl, 0), at(s_lo, 1) == at(s_lo, 0), z3.Implies(z3.Not(at(b(pend), 0)), at(s_hi, 1) == at(s_hi, 0)))))
+    h.respond("resp.move", z3.And(b(h.v(sink.valid)), b(h.v(source.ready))), out_fire, 1)
+    h.respond("resp.flush", b(h.v(source.ready)), flush_fire, 1, start=b(pend))
+    try:
+        st, enc = d.fsm.state, d.fsm.encoding; sr, count = L(d, "sr"), L(d, "count"); ffi = L(d, "fsm_from_idle"); sd = L(d, "sink_d")
+        S = lambda n: eqc(h.v(st), enc[n])
+        h.hint("st", ult(h.v(st), len(enc)))
+        h.hint("idle", S("IDLE") == (ph == K(0, PW)))
+        if hw > 1:
+            h.hint("hs", S("HEADER-SEND") == z3.And(ugt(ph, 0), in_hdr))
+            h.hint("cnt", z3.Implies(z3.And(ugt(ph, 0), in_hdr), zx(h.v(count), PW) == ph))
+        h.hint("copy", S("UNALIGNED-DATA-COPY") == z3.Or(merge, body))
+        h.hint("ffi", z3.Implies(ph != K(0, PW), b(h.v(ffi)) == z3.Not(body)))
+        for p in range(1, hw + 1):
+            sh = 0 if hw == 1 else min(p - 1, hw - 2)
+            h.hint(f"sr@{p}", z3.Implies(ph == K(p, PW), h.v(sr) == z3.LShR(ghdr, K(sh * dw, length * 8))))
+        h.hint("res", z3.Implies(body, z3.Extract(dw - 1, dw - lo * 8, h.v(sd.data)) == resd))
+        h.hint("pend", h.v(sd.last) == pend)
+        h.hint("pend->body", z3.Implies(b(pend), body))
+    except (AttributeError, KeyError, TypeError): pass
+    h.hint("ph<=hw+1", ule(ph, hw + 1))
+    h.hint("busy->offer", z3.Implies(z3.And(ph != K(0, PW), z3.Not(body)), b(h.ghosts["prev_offer"][0])))
+    h.use_auto = True
+    h.cover("cover.flush", flush_fire, depth=hw + 5)
+    h.cover("cover.one-beat", z3.And(flush_fire, b(h.prev("merge_fire", bv1(z3.And(merge, out_fire))))), depth=hw + 5)
+    h.bmc_depth = 2 * hw + 10
+    h.functions = ["litex.soc.interconnect.packet.Packetizer.__init__", "litex.soc.interconnect.packet.Header.encode"]
+    return h
+
+def c_depacketizer_unaligned(dw, fields, length, swap=True):
+    """header length not a multiple of the data width: the beat that carries the last `lo` header bytes also carries the first payload
+    bytes; every output beat is the upper bytes of one raw beat followed by the lower `lo` bytes of the next; a raw packet that ends
+    in the merge beat (payload inside the realignment residue) is flushed as one beat."""
+    hdr = Header(fields, length, swap_field_bytes=swap)
+    sink_desc = stream.EndpointDescription([("data", dw)]); src_desc = stream.EndpointDescription([("data", dw)], hdr.get_layout())
+    d = mk(Depacketizer, sink_desc, src_desc, hdr); sink, source = d.sink, d.source
+    B = dw // 8; hw = length // B; lo = length % B; hi = B - lo; assert lo != 0 and hw >= 1
+    h = HwCheck(f"Depacketizer(dw={dw},hdr={length}B,unaligned)", d, ep_inputs(sink, source))
+    producer_holds(h, sink)
+    PW = max(2, (hw + 2).bit_length())
+    ph = h.ghost("phase", PW)                        # raw beats accepted so far, saturating at hw+1 (hw: merge beat awaited, hw+1: body)
+    gw = [h.ghost(f"hw{p}", dw) for p in range(hw)]; gtail = h.ghost("tail", lo * 8); resd = h.ghost("res", hi * 8); pend = h.ghost("pend", 1)
+    in_fire, out_fire = fire(h, sink), fire(h, source)
+    in_hdr = ult(ph, hw); merge = ph == K(hw, PW); body = ph == K(hw + 1, PW)
+    sv, sl = b(h.v(source.valid)), b(h.v(source.last))
+    end_fire = z3.And(out_fire, sl)
+    h.assume(z3.Implies(z3.And(in_hdr, b(h.v(sink.valid))), z3.Not(b(h.v(sink.last)))), "a raw packet is at least as long as its header (no last flag on a full header word)")
+    h.ghost_next(ph, z3.If(end_fire, K(0, PW), z3.If(z3.And(in_fire, z3.Not(body)), ph + 1, ph)))
+    for p in range(hw): h.ghost_next(gw[p], z3.If(z3.And(in_fire, ph == K(p, PW)), h.v(sink.data), gw[p]))
+    h.ghost_next(gtail, z3.If(z3.And(in_fire, merge), z3.Extract(lo * 8 - 1, 0, h.v(sink.data)), gtail))
+    h.ghost_next(resd, z3.If(in_fire, z3.Extract(dw - 1, lo * 8, h.v(sink.data)), resd))
+    h.ghost_next(pend, z3.If(end_fire, K(0, 1), z3.If(z3.And(in_fire, merge), h.v(sink.last), pend)))
+    ghdr = cat(gtail, *reversed(gw))
+    bits = spec_header_bits(fields, length, swap, lambda n: h.v(getattr(source, n)))
+    sdat = h.v(source.data); s_lo = z3.Extract(hi * 8 - 1, 0, sdat); s_hi = z3.Extract(dw - 1, hi * 8, sdat)
+    h.ensure("ens.hdr", z3.Implies(z3.Or(in_hdr, merge), z3.And(b(h.v(sink.ready)), z3.Not(sv))))                 # header beats are consumed, nothing emitted
+    h.ensure("ens.body", z3.Implies(z3.And(body, z3.Not(b(pend))), z3.And(z3.Implies(sv, z3.And(b(h.v(sink.valid)), s_lo == resd, s_hi == z3.Extract(lo * 8 - 1, 0, h.v(sink.data)), sl == b(h.v(sink.last)))), in_fire == out_fire)))
+    h.ensure("ens.flush", z3.Implies(b(pend), z3.And(sv, sl, s_lo == resd, z3.Not(in_fire))))                       # payload that ended inside the merge beat; the next packet's first beat is not swallowed
+    h.ensure("ens.fields", z3.Implies(body, z3.And(*[z3.Extract(p, p, ghdr) == t for p, t in bits.items()])))
+    stalled = z3.And(sv, z3.Not(b(h.v(source.ready))))
+    par = lambda f: cat(*[f(s_) for s_, _ in source.param.iter_flat()])
+    h.ensure_seq("ens.hold", lambda at: z3.Implies(at(stalled, 0), z3.And(at(sv, 1), at(sl, 1) == at(sl, 0), at(s_lo, 1) == at(s_lo, 0), at(par(h.v), 1) == at(par(h.v), 0),
+                                                                          z3.Implies(z3.Not(at(b(pend), 0)), at(s_hi, 1) == at(s_hi, 0)))))
+    h.respond("resp.move", z3.And(b(h.v(sink.valid)), b(h.v(source.ready))), z3.Or(in_fire, out_fire), 1)
+    h.respond("resp.flush", b(h.v(source.ready)), end_fire, 1, start=b(pend))
+    try:
+        st, enc = d.fsm.state, d.fsm.encoding; sr, count = L(d, "sr"), L(d, "count"); ffi = L(d, "fsm_from_idle"); sd = L(d, "sink_d")
+        S = lambda n: eqc(h.v(st), enc[n])
+        h.hint("st", ult(h.v(st), len(enc)))
+        h.hint("idle", S("IDLE") == (ph == K(0, PW)))
+        if hw > 1:
+            h.hint("hr", S("HEADER-RECEIVE") == z3.And(ugt(ph, 0), in_hdr))
+            h.hint("cnt", z3.Implies(z3.And(ugt(ph, 0), in_hdr), zx(h.v(count), PW) == ph))
+        h.hint("copy", S("UNALIGNED-DATA-COPY") == z3.Or(merge, body))
+        h.hint("ffi", z3.Implies(ph != K(0, PW), b(h.v(ffi)) == z3.Not(body)))
+        for p in range(1, hw + 1):
+            for q in range(p):
+                pos = length * 8 - (p - q) * dw
+                h.hint(f"sr@{p}.{q}", z3.Implies(ph == K(p, PW), z3.Extract(pos + dw - 1, pos, h.v(sr)) == gw[q]))
+        h.hint("sr@body", z3.Implies(body, h.v(sr) == ghdr))
+        h.hint("res", z3.Implies(body, z3.Extract(dw - 1, lo * 8, h.v(sd.data)) == resd))
+        h.hint("sd.last", z3.Implies(ph != K(0, PW), h.v(sd.last) == z3.If(body, pend, K(0, 1))))
+        h.hint("pend->body", z3.Implies(b(pend), body))
+    except (AttributeError, KeyError, TypeError): pass
+    h.hint("ph<=hw+1", ule(ph, hw + 1))
+    h.use_auto = True
+    h.cover("cover.payload", z3.And(out_fire, z3.Not(b(pend))), depth=hw + 5)
+    h.cover("cover.flush", z3.And(out_fire, b(pend)), depth=hw + 5)
+    h.bmc_depth = 2 * hw + 10
+    h.functions = ["litex.soc.interconnect.packet.Depacketizer.__init__", "litex.soc.interconnect.packet.Header.decode"]
+    return h
+
+SHORT_WHAT = ("header shorter than one data word (header.length < data_width/8, header_words == 0): the FSMs compare count with header_words-1 == -1 and never "
+              "leave HEADER-SEND / HEADER-RECEIVE - the Packetizer sends the zero-extended header alone and then garbage beats forever, the Depacketizer "
+              "swallows every beat and never emits; no assertion rejects the configuration")
+def c_short_header(kind, dw, length):
+    """header.length < bytes per beat: the very first beat is the merge beat (header bytes ++ first payload bytes)."""
+    fields = mkfields(length); hdr = Header(fields, length, swap_field_bytes=True); lo = length; B = dw // 8; assert length < B
+    if kind == "packetizer":
+        d = mk(Packetizer, stream.EndpointDescription([("data", dw)], hdr.get_layout()), stream.EndpointDescription([("data", dw)]), hdr)
+    else:
+        d = mk(Depacketizer, stream.EndpointDescription([("data", dw)]), stream.EndpointDescription([("data", dw)], hdr.get_layout()), hdr)
+    sink, source = d.sink, d.source
+    h = HwCheck(f"{type(d).__name__}(dw={dw},hdr={length}B,short)", d, ep_inputs(sink, source))
+    producer_holds(h, sink)
+    in_fire, out_fire = fire(h, sink), fire(h, source)
+    started = h.ghost("started", 1)                      # the first beat of the current packet has been sent (packetizer) / accepted (depacketizer)
+    sv = b(h.v(source.valid))
+    if kind == "packetizer":
+        h.ghost_next(started, z3.If(z3.And(out_fire, b(h.v(source.last))), K(0, 1), z3.If(out_fire, K(1, 1), started)))
+        bits = spec_header_bits(fields, length, True, lambda n: h.v(getattr(sink, n)))
+        spec_now = z3.Concat(*[bits.get(p, K(0, 1)) for p in reversed(range(length * 8))])
+        h.ensure("ens.first.header", z3.Implies(z3.And(z3.Not(b(started)), sv), z3.Extract(lo * 8 - 1, 0, h.v(source.data)) == spec_now))
+        h.finding("finding.short-header", z3.Implies(z3.And(z3.Not(b(started)), sv), z3.And(z3.Extract(dw - 1, lo * 8, h.v(source.data)) == z3.Extract(dw - lo * 8 - 1, 0, h.v(sink.data)), in_fire == out_fire)), SHORT_WHAT)
+    else:
+        h.ghost_next(started, z3.If(z3.And(out_fire, b(h.v(source.last))), K(0, 1), z3.If(in_fire, K(1, 1), started)))
+        h.ensure("ens.first.consumed", z3.Implies(z3.Not(b(started)), z3.And(b(h.v(sink.ready)), z3.Not(sv))))
+        h.finding("finding.short-header", z3.Implies(z3.And(b(started), b(h.v(sink.valid))), sv), SHORT_WHAT)
+    h.use_auto = True
+    h.functions = [f"litex.soc.interconnect.packet.{type(d).__name__}.__init__"]
+    return h
+
 def c_dispatcher(n, one_hot=False):
     m = stream.Endpoint(LAY); slaves = [stream.Endpoint(LAY) for _ in range(n)]
     d = mk(Dispatcher, m, list(slaves), one_hot)
@@ -281,9 +450,19 @@ def all_cases(tier):
           ("Packetizer(dw=8,3B)", c_packetizer, 8, FIELDS3, 3),
           ("Depacketizer(dw=32,8B)", c_depacketizer, 32, FIELDS, 8), ("Depacketizer(dw=64,8B)", c_depacketizer, 64, FIELDS, 8), ("Depacketizer(dw=16,8B)", c_depacketizer, 16, FIELDS, 8),
           ("Depacketizer(dw=8,3B)", c_depacketizer, 8, FIELDS3, 3),
+          ("Packetizer(dw=32,6B,unaligned)", c_packetizer_unaligned, 32, mkfields(6), 6), ("Packetizer(dw=32,10B,unaligned)", c_packetizer_unaligned, 32, mkfields(10), 10),
+          ("Packetizer(dw=64,14B,unaligned)", c_packetizer_unaligned, 64, mkfields(14), 14), ("Packetizer(dw=16,3B,unaligned)", c_packetizer_unaligned, 16, mkfields(3), 3),
+          ("Packetizer(dw=32,31B,unaligned)", c_packetizer_unaligned, 32, mkfields(31), 31), ("Packetizer(dw=128,31B,unaligned)", c_packetizer_unaligned, 128, mkfields(31), 31),
+          ("Depacketizer(dw=32,6B,unaligned)", c_depacketizer_unaligned, 32, mkfields(6), 6), ("Depacketizer(dw=32,10B,unaligned)", c_depacketizer_unaligned, 32, mkfields(10), 10),
+          ("Depacketizer(dw=64,14B,unaligned)", c_depacketizer_unaligned, 64, mkfields(14), 14), ("Depacketizer(dw=16,3B,unaligned)", c_depacketizer_unaligned, 16, mkfields(3), 3),
+          ("Depacketizer(dw=32,31B,unaligned)", c_depacketizer_unaligned, 32, mkfields(31), 31), ("Depacketizer(dw=128,31B,unaligned)", c_depacketizer_unaligned, 128, mkfields(31), 31),
+          ("Packetizer(dw=32,3B,short)", c_short_header, "packetizer", 32, 3), ("Depacketizer(dw=32,3B,short)", c_short_header, "depacketizer", 32, 3),
           ("Dispatcher(2)", c_dispatcher, 2), ("Dispatcher(3)", c_dispatcher, 3), ("Dispatcher(3,one_hot)", c_dispatcher, 3, True), ("Dispatcher(4)", c_dispatcher, 4),
           ("Arbiter(2)", c_arbiter, 2), ("Arbiter(3)", c_arbiter, 3), ("Status", c_status),
           ("PacketFIFO(4,2)", c_packetfifo, 4, 2)]
     if tier == "thorough":
+        cs += [("Packetizer(dw=64,31B,unaligned)", c_packetizer_unaligned, 64, mkfields(31), 31), ("Depacketizer(dw=64,31B,unaligned)", c_depacketizer_unaligned, 64, mkfields(31), 31),
+               ("Packetizer(dw=16,31B,unaligned)", c_packetizer_unaligned, 16, mkfields(31), 31), ("Depacketizer(dw=16,31B,unaligned)", c_depacketizer_unaligned, 16, mkfields(31), 31),
+               ("Packetizer(dw=64,3B,short)", c_short_header, "packetizer", 64, 3), ("Depacketizer(dw=64,5B,short)", c_short_header, "depacketizer", 64, 5)]
         cs += [("Arbiter(4)", c_arbiter, 4), ("Packetizer(dw=128,16B)", c_packetizer, 128, {"a": HeaderField(0, 0, 64), "b": HeaderField(8, 0, 64)}, 16), ("PacketFIFO(8,3)", c_packetfifo, 8, 3)]
     return cs
